@@ -327,6 +327,7 @@ pub async fn execute(plan: Plan, dir: &Path) -> RunOutcome {
                 password: pw.clone().into(),
                 model: model.clone(),
                 marker_labels: false,
+                fsnaps: Default::default(),
             };
             match crashed.open().await {
                 Err(e) => {
